@@ -71,10 +71,13 @@ T = {
          "the statement about two compiled binaries is correspondence, not proof: the harness is built twice (debug-assertions+overflow-checks on/off), both run the same valid and invalid calls and both must equal the model's single prediction.",
          "Trust: as C01; two-profile agreement is an exhaustive run over the generated workload, not a theorem.",
          "Lean 4 proof of guard exactness + two-build-profile differential run", "5 (C17)"),
- "C18": ("PARTIAL. Lean theorems about the candidate sets and the cost function of exact two-level covers and an executable exact optimum in the model; the solver's optimality is assumed. "
-         "Tie: the real optimizers (feature optim-mip, HiGHS, built offline) are run on all function lists the property names and compared on exactness and on cost against the model's optimum.",
-         "Trust: as C01 plus HiGHS/good_lp and floating-point thresholds; the ILP formulation is not proved equivalent to the cover problem in Lean beyond what the theorems state.",
-         "Lean 4 proof (candidates, cost) + exact-optimum model vs real solver", "5 (C18), 9"),
+ "C18": ("PARTIAL (only the external solver's optimality is assumed). Lean theorems: the integer programmes SopModeler / EsopModeler build are modelled constraint by constraint (Model/Mip.lean) and proved sound and complete for the cover problem - "
+         "every feasible point decodes, by the rule solve() applies, to an OR form by implicants / XOR form of every output whose documented cost is at most the objective value; every such form over the candidates is a feasible point "
+         "whose objective value is exactly its cost (the redundant ESOP constraints exclude nothing) - hence an optimal solution denotes the functions exactly and has minimum documented cost (sop_mip_spec, sop_mip_value, esop_mip_spec; continuous variables range over the rationals); "
+         "candidate sets and the executable exact optimum as before. Tie: hook verif_last_ilp dumps the programme good_lp holds when solve() is called; it is compared constraint by constraint with the model's programme; "
+         "the real optimizers (feature optim-mip, HiGHS, built offline) are run on all function lists the property names and compared on exactness and on cost against independent exact optima (one output n <= 3, pairs n <= 2, up to three outputs n = 3).",
+         "Trust: as C01 plus HiGHS returning an optimal solution of the programme it is given, good_lp passing it on unchanged, floating-point thresholds, the Debug rendering of good_lp parsed by the harness.",
+         "Lean 4 proof (ILP model sound+complete for the cover problem, candidates, cost) + ILP dump vs model + exact optima vs real solver", "5 (C18), 9"),
  "C19": ("PARTIAL. Lean theorems: fill_random is a masked projection of the word stream for every generator, always well formed, every table position is a distinct stream bit, calls use disjoint words; "
          "fairness and thread-locality of rand::thread_rng are runtime facts of another crate - covered by the statistical run the property specifies (256 draws x n = 0..12 x both types x 1 and 16 threads).",
          "Trust: as C01 plus the rand crate.", "Lean 4 proof for every word stream + statistical run on the real generator", "5 (C19), 9"),
@@ -107,7 +110,7 @@ def main():
             guard="--cfg volute_verif",
             enable="harness/.cargo/config.toml sets build.rustflags = [\"--cfg\", \"volute_verif\"]; the harness depends on /repo by path",
             baseline_off_cmd="cd /repo && cargo test --workspace --no-fail-fast --offline",
-            source_commits=["d7fd620", "8b90f63"],
+            source_commits=["d7fd620", "8b90f63", "8cb2ff1"],
             add_only=True,
         ),
         engines=[dict(name="lean-model", path="lean/", serves_properties=sorted(claimed),
